@@ -588,6 +588,8 @@ class Lowerer:
                     args.append(self.default_arg(a))
                 continue
             args.append(self.arg(a, byref=(i < len(refs) and refs[i] and not self.is_class(self.skip(a)))))
+        if not callable(rule) and rule[0] == 'arg':
+            return self.emitcall(rule, key, args, n, [base] + argn)
         return self.emitcall(rule, key, args, n, argn)
 
     def opcall(self, n):
@@ -1126,6 +1128,36 @@ class Lowerer:
             if h.get('fn') in (None, self.cname) and self.hook_fired.get(h['id'], 0) != h.get('count', 1):
                 raise Unsupported('ghost hook %s matched %d times (expected %d)' % (h['id'], self.hook_fired.get(h['id'], 0), h.get('count', 1)))
         return '\n'.join(self.out)
+
+
+def rangefor_indexed(size_tmpl, elem_tmpl, index_type='int'):
+    """rule factory for `for (T x : container)` over an indexable model: clang's desugaring
+    (__begin != __end; ++__begin; x = *__begin) becomes an index loop over the model's size/element accessors.
+    Templates take {r} = address (class model) or value (scalar model) of the range object and {i} = the index."""
+    def rule(lw, n, rinit, lv, body, ind):
+        sp = '  ' * ind
+        r = lw.addr(rinit) if lw.is_class(rinit) else lw.expr(rinit)
+        lw.flush(sp)
+        num = lw.loops
+        lw.loops += 1
+        idx = '__i%d' % num
+        lw.names.add(idx)
+        v = lv['inner'][0]
+        vt = qt(v)
+        lw.emit('%s%s %s = 0;' % (sp, index_type, idx))
+        lw.emit('%sfor (; %s < %s; %s++)' % (sp, idx, size_tmpl.format(r=r), idx))
+        lw.emit('%s/*@LOOP%d@*/' % (sp, num))
+        lw.emit(sp + '{')
+        elem = elem_tmpl.format(r=r, i=idx)
+        if vt.strip().endswith('&') and lw.is_class(v):
+            cn, ct = lw.declare_local(v, sp, is_ref=True)
+            lw.emit('%s  %s%s *%s = %s;' % (sp, 'const ' if re.match(r'\s*const\b', vt) else '', ct, cn, Lowerer.addr_of(elem)))
+        else:
+            cn, ct = lw.declare_local(v, sp)
+            lw.emit('%s  %s %s = %s;' % (sp, ct, cn, elem))
+        lw.block(body, ind + 1)
+        lw.emit(sp + '}')
+    return rule
 
 
 # ---------------------------------------------------------------------- helpers
